@@ -61,6 +61,59 @@ def _strip_not(test):
     return test, neg
 
 
+def _atom_key(e):
+    """Normalised text of an atomic condition and whether the atom is the
+    negation of that text: `a != b` -> ('a == b', True)."""
+    if isinstance(e, ast.Compare) and len(e.ops) == 1:
+        op = e.ops[0]
+        flip = {ast.NotEq: ast.Eq, ast.IsNot: ast.Is, ast.NotIn: ast.In}
+        if type(op) in flip:
+            pos = ast.Compare(left=e.left, ops=[flip[type(op)]()], comparators=e.comparators)
+            return " ".join(unparse(pos).split()), True
+    return " ".join(unparse(e).split()), False
+
+
+def _truth_of(e, conds):
+    """Truth of expression e under the recorded atoms, or None."""
+    e, neg = _strip_not(e)
+    if isinstance(e, ast.BoolOp):
+        v = _eval_known(e, conds)
+        return None if v is None else (v != neg)
+    key, kneg = _atom_key(e)
+    if key in conds:
+        return (conds[key] != kneg) != neg
+    return None
+
+
+def _eval_known(e, conds):
+    if isinstance(e, ast.BoolOp):
+        vals = [_truth_of(v, conds) for v in e.values]
+        if isinstance(e.op, ast.And):
+            if any(v is False for v in vals):
+                return False
+            if all(v is True for v in vals):
+                return True
+        else:
+            if any(v is True for v in vals):
+                return True
+            if all(v is False for v in vals):
+                return False
+    return None
+
+
+def _imply(e, truth, conds):
+    """Record what `e == truth` implies for the atoms of e."""
+    e, neg = _strip_not(e)
+    truth = truth != neg
+    if isinstance(e, ast.BoolOp):
+        if (isinstance(e.op, ast.Or) and not truth) or (isinstance(e.op, ast.And) and truth):
+            for v in e.values:
+                _imply(v, truth, conds)
+        return
+    key, kneg = _atom_key(e)
+    conds.setdefault(key, truth != kneg)
+
+
 def paths(body: List[ast.stmt], loop_iters=(0, 1), fold: Optional[Callable] = None) -> List[Tuple[List[Ev], str]]:
     """All paths through `body`: [(events, status)], status in
     fall | return | raise.  `fold(test)` may return True/False to prune."""
@@ -73,14 +126,21 @@ def paths(body: List[ast.stmt], loop_iters=(0, 1), fold: Optional[Callable] = No
             v = fold(test)
             if v is not None:
                 return [(bool(v), conds)]
+        # test == base XOR neg ; base == atom(key) XOR kneg ; conds stores the truth of atom(key)
         base, neg = _strip_not(test)
-        key = " ".join(unparse(base).split())
+        key, kneg = _atom_key(base)
         if key in conds:
-            return [(conds[key] != neg, conds)]
+            return [((conds[key] != kneg) != neg, conds)]
+        # a compound test whose atoms are all known is determined
+        known = _eval_known(base, conds)
+        if known is not None:
+            return [(known != neg, conds)]
         res = []
         for b in (True, False):
             c = dict(conds)
-            c[key] = b != neg
+            base_truth = b != neg
+            c[key] = base_truth != kneg
+            _imply(base, base_truth, c)
             res.append((b, c))
         return res
 
